@@ -3,6 +3,7 @@ mod c01;
 mod c06;
 mod c12;
 mod c12_lits;
+mod c13;
 
 use pvcore::run::*;
 use pvcore::sweep::*;
@@ -59,5 +60,6 @@ fn main() {
         Entry { id: "C01", level: "exploration", meta: c01::meta, run: c01::run, replay: c01::replay },
         Entry { id: "C06", level: "exploration", meta: c06::meta, run: c06::run, replay: c06::replay },
         Entry { id: "C12", level: "model_checking", meta: c12::meta, run: c12::run, replay: c12::replay },
+        Entry { id: "C13", level: "model_checking", meta: c13::meta, run: c13::run, replay: c13::replay },
     ])
 }
